@@ -65,14 +65,38 @@ theorem findIdx?_some_filterMap (l : List (Option Nat)) (x : Nat) :
           rw [List.erase_cons]
           simp [hvx]
 
-/-- no destructor passes NULL to `del` (GC_Rem_Ptr matches NULL against the struck-off slots of the pending list) -/
+/-- no destructor passes NULL to `del` (needed only for the variant of GC_Rem_Ptr without the NULL test, which matches NULL
+    against the struck-off slots of the pending list) -/
 def NoNull (K : Nat → List Nat) : Prop := ∀ p, 0 ∉ K p
 
-/-- the commands for which the strike-off scan of GC_Rem_Ptr behaves as a search for the object: a removal of a non-NULL
-    pointer, or any removal while no sweep is in progress (empty pending list) -/
-def CmdOk (r : Reg) : Cmd → Prop
+/-- what the destructor theorems need about NULL: nothing when GC_Rem_Ptr returns at once for NULL (the source as it is
+    now), `NoNull K` for the variant before fix d3e4e44 -/
+def NullOk (c : Cfg) (K : Nat → List Nat) : Prop := c.remNullGuard = true ∨ NoNull K
+
+/-- the commands for which GC_Rem_Ptr behaves as a search for the object: every command when GC_Rem_Ptr returns at once for
+    NULL; without that test, a removal of a non-NULL pointer, or any removal while no sweep is in progress (empty pending
+    list) -/
+def CmdOk (c : Cfg) (r : Reg) : Cmd → Prop
   | .fin _ => True
-  | .rem x => x ≠ 0 ∨ r.pending = #[]
+  | .rem x => c.remNullGuard = true ∨ x ≠ 0 ∨ r.pending = #[]
+
+/-- a pointer that passed the entry test of GC_Rem_Ptr is searched for as an object -/
+theorem cmdOk_past_guard {c : Cfg} {r : Reg} {x : Nat} (h : c.remNullGuard = true ∨ x ≠ 0 ∨ r.pending = #[])
+    (hg : ¬ (c.remNullGuard && x == 0) = true) : x ≠ 0 ∨ r.pending = #[] := by
+  rcases h with h | h
+  · left; intro hx; apply hg; simp [h, hx]
+  · exact h
+
+theorem findIdx?_none_of_not_mem (l : List (Option Nat)) (x : Nat) (h : x ∉ l.filterMap id) :
+    l.findIdx? (fun y => y == some x) = none := by
+  rw [List.findIdx?_eq_none_iff]
+  intro y hy
+  cases y with
+  | none => simp
+  | some v =>
+    have : v ≠ x := by
+      intro hv; apply h; rw [List.mem_filterMap]; exact ⟨some v, hy, by simp [hv]⟩
+    simp [this]
 
 /-- for a non-NULL pointer the raw comparison `freelist[i] is ptr` is the search for a slot holding that object -/
 theorem pendPred_eq (x : Nat) (hx : x ≠ 0) : (fun y : Option Nat => y.getD 0 == x) = (fun y => y == some x) := by
@@ -95,16 +119,20 @@ structure WFP (c : Cfg) (r : Reg) (L : Ledger) : Prop where
   bounded : Bounded r L
   nodup : (L.map Prod.fst).Nodup
   pzero : r.n = 0 → pendList r = []
+  /-- no NULL object is waiting (the pending list is filled from the registry) -/
+  pnz : 0 ∉ pendList r
 
 theorem WF.toWFP {c : Cfg} {r : Reg} {L : Ledger} (h : WF c r L) : WFP c r L :=
-  ⟨h.core, h.count, h.room, h.bounded, h.nodup, fun _ => by unfold pendList; rw [h.pend]; rfl⟩
+  ⟨h.core, h.count, h.room, h.bounded, h.nodup, fun _ => by unfold pendList; rw [h.pend]; rfl,
+   by unfold pendList; rw [h.pend]; simp⟩
 
 theorem WFP.toWF {c : Cfg} {r : Reg} {L : Ledger} (h : WFP c r L) (hp : r.pending = #[]) : WF c r L :=
   ⟨h.core, h.count, h.room, h.bounded, h.nodup, hp⟩
 
 /-- **GC_Rem_Ptr** with a pending list: an address waiting to be finalised is struck off (first occurrence); otherwise a
     registered address is erased from the table; otherwise nothing happens. -/
-theorem remPtr_abs (c : Cfg) (r : Reg) (L : Ledger) (hwf : WFP c r L) (x : Nat) (hx0 : x ≠ 0 ∨ r.pending = #[]) :
+theorem remPtr_abs (c : Cfg) (r : Reg) (L : Ledger) (hwf : WFP c r L) (x : Nat)
+    (hx00 : c.remNullGuard = true ∨ x ≠ 0 ∨ r.pending = #[]) :
     ∃ r1 fi, remPtr c r x = some (r1, fi) ∧ r1.running = r.running ∧ r1.mitems = r.mitems ∧
       ((x ∈ pendList r ∧ fi = some x ∧ pendList r1 = (pendList r).erase x ∧ WFP c r1 L ∧ r1.pending.size = r.pending.size) ∨
        (x ∉ pendList r ∧ x ∈ L.map Prod.fst ∧ fi = some x ∧ r1.pending = r.pending ∧ WFP c r1 (L.filter (fun y => y.1 != x)) ∧
@@ -119,7 +147,18 @@ theorem remPtr_abs (c : Cfg) (r : Reg) (L : Ledger) (hwf : WFP c r L) (x : Nat) 
       omega
     refine ⟨r, none, rfl, rfl, rfl, Or.inr (Or.inr ⟨?_, hx, rfl, rfl⟩)⟩
     rw [hwf.pzero h0]; simp
-  · rw [dif_pos hn, findIdx_pend r x hx0]
+  · rw [dif_pos hn]
+    by_cases hg : (c.remNullGuard && x == 0) = true
+    · -- `ptr is NULL`: GC_Rem_Ptr returns at once; NULL is neither live nor waiting
+      rw [if_pos hg]
+      have hx0 : x = 0 := by simpa using (Bool.and_eq_true_iff.1 hg).2
+      have hx : x ∉ L.map Prod.fst := by
+        intro hx
+        obtain ⟨⟨q, b⟩, hqb, hq⟩ := List.mem_map.1 hx
+        exact hwf.bounded.nonnull q b hqb (by simpa [hx0] using hq)
+      exact ⟨r, none, rfl, rfl, rfl, Or.inr (Or.inr ⟨by rw [hx0]; exact hwf.pnz, hx, rfl, rfl⟩)⟩
+    have hx0 := cmdOk_past_guard hx00 hg
+    rw [if_neg hg, findIdx_pend r x hx0]
     cases hfi : r.pending.findIdx? (fun y => y == some x) with
     | some i =>
       simp only []
@@ -132,9 +171,11 @@ theorem remPtr_abs (c : Cfg) (r : Reg) (L : Ledger) (hwf : WFP c r L) (x : Nat) 
         rw [← hfi]; cases r.pending; simp
       obtain ⟨h1, h2⟩ := findIdx?_some_filterMap _ x i hfi'
       refine ⟨_, some x, rfl, rfl, rfl, Or.inl ⟨h1, rfl, ?_, ⟨hwf.core.of_slots rfl HEq.rfl, hwf.count, hwf.room,
-        ⟨hwf.bounded.bounds, hwf.bounded.aligned, hwf.bounded.zero⟩, hwf.nodup, ?_⟩, by simp⟩⟩
+        ⟨hwf.bounded.bounds, hwf.bounded.aligned, hwf.bounded.zero, hwf.bounded.nonnull⟩, hwf.nodup, ?_, ?_⟩, by simp⟩⟩
       · unfold pendList; simp only [Array.toList_setIfInBounds]; exact h2
       · intro h0'; have : r.n = 0 := h0'; omega
+      · unfold pendList; simp only [Array.toList_setIfInBounds]; rw [h2]
+        exact fun h => hwf.pnz (List.mem_of_mem_erase h)
     | none =>
       simp only []
       have hfi' : r.pending.toList.findIdx? (fun y => y == some x) = none := by
@@ -154,7 +195,7 @@ theorem remPtr_abs (c : Cfg) (r : Reg) (L : Ledger) (hwf : WFP c r L) (x : Nat) 
         obtain ⟨s', hs', inv', hz', hmem', hocc', _⟩ := eraseAt_spec (hashOf c) r.slots hwf.core.inv i.1 i.2 e he z hz hze
         simp only [hs']
         have hpos : 0 < occ r.slots := occ_pos_of_some r.slots i.1 i.2 e he
-        refine ⟨_, some x, rfl, rfl, rfl, Or.inr (Or.inl ⟨hxp, hxL, rfl, rfl, ⟨⟨inv', ?_⟩, ?_, Or.inl ?_, ⟨?_, ?_, ?_⟩, ?_, ?_⟩, ?_⟩)⟩
+        refine ⟨_, some x, rfl, rfl, rfl, Or.inr (Or.inl ⟨hxp, hxL, rfl, rfl, ⟨⟨inv', ?_⟩, ?_, Or.inl ?_, ⟨?_, ?_, ?_, ?_⟩, ?_, ?_, hwf.pnz⟩, ?_⟩)⟩
         · intro e'
           show Mem s' e' ↔ _
           rw [hmem' e', hwf.core.ents e', List.mem_filter]
@@ -179,6 +220,7 @@ theorem remPtr_abs (c : Cfg) (r : Reg) (L : Ledger) (hwf : WFP c r L) (x : Nat) 
         · intro p b hp; exact hwf.bounded.bounds p b (List.mem_filter.1 hp).1
         · intro p b hp; exact hwf.bounded.aligned p b (List.mem_filter.1 hp).1
         · intro h0'; have : r.n = 0 := h0'; omega
+        · intro p b hp; exact hwf.bounded.nonnull p b (List.mem_filter.1 hp).1
         · exact List.Nodup.sublist (List.Sublist.map _ List.filter_sublist) hwf.nodup
         · intro h0'; have : r.n = 0 := h0'; omega
         · show r.nitems - 1 + 1 = r.nitems
@@ -233,7 +275,10 @@ theorem rem_tail (c : Cfg) (g : GoodCfg c) (r2 : Reg) (L : Ledger) (h : WFP c r2
       pendList { r3 with mitems := c.mitemsOf r3.nitems } = pendList r2 ∧ r3.running = r2.running ∧
       r3.pending.size = r2.pending.size := by
   obtain ⟨r3, hr3, hmeta, hcore, hocc, hroom, hz⟩ := resizeLess_spec c g r2 L h.core h.count h.room
-  refine ⟨r3, hr3, ⟨hcore.of_slots rfl HEq.rfl, ?_, hroom, ⟨?_, ?_, ?_⟩, h.nodup, ?_⟩, ?_, hmeta.running, by rw [hmeta.pending]⟩
+  have hpl : pendList { r3 with mitems := c.mitemsOf r3.nitems } = pendList r2 := by
+    unfold pendList; show r3.pending.toList.filterMap id = _; rw [hmeta.pending]
+  refine ⟨r3, hr3, ⟨hcore.of_slots rfl HEq.rfl, ?_, hroom, ⟨?_, ?_, ?_, h.bounded.nonnull⟩, h.nodup, ?_, by rw [hpl]; exact h.pnz⟩, ?_,
+    hmeta.running, by rw [hmeta.pending]⟩
   · show r3.nitems = occ r3.slots; rw [hmeta.nitems, hocc]; exact h.count
   · intro p b hp; show r3.minptr ≤ p ∧ p ≤ r3.maxptr; rw [hmeta.minptr, hmeta.maxptr]; exact h.bounded.bounds p b hp
   · exact h.bounded.aligned
@@ -245,8 +290,8 @@ theorem rem_tail (c : Cfg) (g : GoodCfg c) (r2 : Reg) (L : Ledger) (h : WFP c r2
   · unfold pendList; show r3.pending.toList.filterMap id = _; rw [hmeta.pending]
 
 /-- **Nested removals refine the abstract recursion**, for every destructor behaviour `K` and every fuel. -/
-theorem exec_sim (c : Cfg) (g : GoodCfg c) (K : Nat → List Nat) (hK : NoNull K) :
-    ∀ (fuel : Nat) (r : Reg) (a : Abs) (cmd : Cmd), WFP c r a.1 → pendList r = a.2 → CmdOk r cmd →
+theorem exec_sim (c : Cfg) (g : GoodCfg c) (K : Nat → List Nat) (hK : NullOk c K) :
+    ∀ (fuel : Nat) (r : Reg) (a : Abs) (cmd : Cmd), WFP c r a.1 → pendList r = a.2 → CmdOk c r cmd →
       Sim c r.running r.pending.size (exec c K fuel r cmd) (absExec K r.running fuel a cmd) := by
   intro fuel
   induction fuel with
@@ -258,7 +303,8 @@ theorem exec_sim (c : Cfg) (g : GoodCfg c) (K : Nat → List Nat) (hK : NoNull K
       rw [exec_fin_succ]
       simp only [absExec]
       -- the fold over the destructor's deletions keeps the simulation
-      have hfold : ∀ (l : List Nat) (x : Option (Reg × List Nat)) (y : Option (Abs × List Nat)), (∀ z ∈ l, z ≠ 0) →
+      have hfold : ∀ (l : List Nat) (x : Option (Reg × List Nat)) (y : Option (Abs × List Nat)),
+          (c.remNullGuard = true ∨ ∀ z ∈ l, z ≠ 0) →
           Sim c r.running r.pending.size x y →
           Sim c r.running r.pending.size
             (l.foldl (fun (acc : Option (Reg × List Nat)) y =>
@@ -281,13 +327,13 @@ theorem exec_sim (c : Cfg) (g : GoodCfg c) (K : Nat → List Nat) (hK : NoNull K
         | cons z l ihl =>
           intro x y hz h
           simp only [List.foldl_cons]
-          apply ihl _ _ (fun w hw => hz w (List.mem_cons_of_mem _ hw))
+          apply ihl _ _ (hz.imp id (fun h w hw => h w (List.mem_cons_of_mem _ hw)))
           match x, y, h with
           | none, none, _ => simp [Sim]
           | some (r', t), some (a', t'), h =>
             obtain ⟨h1, h2, h3, h4, h5⟩ := h
             subst h1
-            have := ih r' a' (.rem z) h2 h3 (Or.inl (hz z List.mem_cons_self))
+            have := ih r' a' (.rem z) h2 h3 (hz.elim Or.inl (fun h => Or.inr (Or.inl (h z List.mem_cons_self))))
             rw [h4, h5] at this
             simp only []
             match hx : exec c K fuel r' (.rem z), hy : absExec K r.running fuel a' (.rem z), this with
@@ -297,7 +343,7 @@ theorem exec_sim (c : Cfg) (g : GoodCfg c) (K : Nat → List Nat) (hK : NoNull K
               subst e1
               exact ⟨rfl, e2, e3, e4, e5⟩
       have h0 : Sim c r.running r.pending.size (some (r, [])) (some (a, [])) := ⟨rfl, hwf, hp, rfl, rfl⟩
-      have := hfold (K p) _ _ (fun z hz hz0 => hK p (hz0 ▸ hz)) h0
+      have := hfold (K p) _ _ (hK.imp id (fun hK z hz hz0 => hK p (hz0 ▸ hz))) h0
       match hx : (K p).foldl _ (some (r, [])), hy : (K p).foldl _ (some (a, [])), this with
       | none, none, _ => simp [Sim]
       | some (r', t), some (a', t'), h' =>
@@ -413,7 +459,7 @@ theorem absExec_ok (K : Nat → List Nat) (running : Bool) :
 
 theorem wfp_count (c : Cfg) (r : Reg) (L : Ledger) (h : WFP c r L) : r.nitems = L.length :=
   wf_count c { r with pending := #[] } L
-    ⟨h.core.of_slots rfl HEq.rfl, h.count, h.room, ⟨h.bounded.bounds, h.bounded.aligned, h.bounded.zero⟩, h.nodup, rfl⟩
+    ⟨h.core.of_slots rfl HEq.rfl, h.count, h.room, ⟨h.bounded.bounds, h.bounded.aligned, h.bounded.zero, h.bounded.nonnull⟩, h.nodup, rfl⟩
 
 theorem pendList_length_le (r : Reg) : (pendList r).length ≤ r.pending.size := by
   unfold pendList
@@ -430,8 +476,8 @@ theorem nestFuel_ok (c : Cfg) (r : Reg) (L : Ledger) (h : WFP c r L) : 2 * Abs.s
 
 /-- **GC_Rem with arbitrary destructors**: from a well-formed state it answers; the new state is well formed for the
     abstract result, with the same deallocation trace. -/
-theorem gcRem_sim (c : Cfg) (g : GoodCfg c) (K : Nat → List Nat) (hK : NoNull K) (r : Reg) (L : Ledger) (h : WFP c r L) (x : Nat)
-    (hx : x ≠ 0 ∨ r.pending = #[]) :
+theorem gcRem_sim (c : Cfg) (g : GoodCfg c) (K : Nat → List Nat) (hK : NullOk c K) (r : Reg) (L : Ledger) (h : WFP c r L) (x : Nat)
+    (hx : c.remNullGuard = true ∨ x ≠ 0 ∨ r.pending = #[]) :
     ∃ r' a' t, gcRem c K r x = some (r', t) ∧ absExec K r.running (nestFuel r) (L, pendList r) (.rem x) = some (a', t) ∧
       WFP c r' a'.1 ∧ pendList r' = a'.2 ∧ r'.running = r.running ∧ r'.pending.size = r.pending.size ∧
       Abs.size a' ≤ Abs.size (L, pendList r) := by
